@@ -1,7 +1,7 @@
 (* Property C05 — parsing is invariant under keyword case, whitespace and line layout. *)
 From Coq Require Import String Ascii List ZArith NArith Bool.
 From SDP Require Import Base PyStr Regex Lexer Actions Parse Pre Engine Seq SeqProofs LexProofs PreProofs.
-From SDP Require Entity Table TableProofs Alter AlterProofs AlterKeyProofs KeywordCaseProofs TypeDom.
+From SDP Require Entity Table TableProofs Alter AlterProofs AlterKeyProofs KeywordCaseProofs TypeDom TypeObj SchemaX.
 From SDP.Gen Require RegexAst.
 Import ListNotations.
 Open Scope string_scope.
@@ -63,6 +63,16 @@ Theorem C05_type_domain_keyword_case : forall d d' norm silent silent',
   parse_lexemes norm silent (TypeDom.lexemes d) = parse_lexemes norm silent' (TypeDom.lexemes d').
 Proof. exact KeywordCaseProofs.typedom_keyword_case. Qed.
 Print Assumptions C05_type_domain_keyword_case.
+Theorem C05_object_type_keyword_case : forall o o' norm silent silent',
+  TypeObj.wf norm o = true -> TypeObj.wf norm o' = true -> KeywordCaseProofs.c_tobj o = KeywordCaseProofs.c_tobj o' ->
+  parse_lexemes norm silent (TypeObj.lexemes o) = parse_lexemes norm silent' (TypeObj.lexemes o').
+Proof. exact KeywordCaseProofs.typeobj_keyword_case. Qed.
+Print Assumptions C05_object_type_keyword_case.
+Theorem C05_schema_keyword_case : forall x x' norm silent silent',
+  SchemaX.wf norm x = true -> SchemaX.wf norm x' = true -> KeywordCaseProofs.c_schx x = KeywordCaseProofs.c_schx x' ->
+  parse_lexemes norm silent (SchemaX.lexemes x) = parse_lexemes norm silent' (SchemaX.lexemes x').
+Proof. exact KeywordCaseProofs.schema_keyword_case. Qed.
+Print Assumptions C05_schema_keyword_case.
 
 (* ---------- line breaks and indentation between the tokens of a statement ----------------------------------------------------------------
    Two layouts of a statement over lines (conditions on each line alone, see C03) whose line codes, joined by single blanks, are
